@@ -211,8 +211,8 @@ theorem bbox_arg_error {β : Type} (o : Op β) : buildBBox .err o = .err := rfl
     and every bbox argument that is either rejected or mapped to well-formed per-level boxes, the
     build returns `Ok` or `Err`. -/
 theorem build_never_panics {β : Type} (ops : Ops β) (env : Nat → Outcome (Op β))
-    (henv : ∀ i o, env i = .ok o → Good o.src) (hnp : ∀ i, env i ≠ .panic) (p : Pipe) (ha : p.ArgsOK) :
-    build ops env p ≠ .panic := build_no_panic ops env henv hnp p ha
+    (henv : ∀ i o, env i = .ok o → Good o.src) (hnp : ∀ i, env i ≠ .panic) (p : Pipe) (ha : p.ArgsOK) (hd : p.DebugOK) :
+    build ops env p ≠ .panic := build_no_panic ops env henv hnp p ha hd
 
 /-- an invalid argument anywhere below makes the whole build an error (`?` propagation), shown
     for the stage itself -/
